@@ -1,13 +1,13 @@
 #!/bin/bash
-# Builds the overlay venv (offline): /venv's site-packages (cminx editable -> /repo/src, antlr4, confuse, pathspec) + crosshair-tool + z3-solver.
+# Builds the overlay venv (offline): /venv's site-packages (cminx editable -> /repo/src, antlr4, confuse, pathspec) + crosshair-tool + z3-solver + cvc5 (1.4.0 wheel: second opinion on the regex queries).
 cd "$(dirname "$0")" || exit 2
-if [ -x .venv/bin/python ] && .venv/bin/python -c "import crosshair, z3, cminx, antlr4" >/dev/null 2>&1; then exit 0; fi
+if [ -x .venv/bin/python ] && .venv/bin/python -c "import crosshair, z3, cminx, antlr4, cvc5" >/dev/null 2>&1; then exit 0; fi
 (
   flock 9
-  if [ -x .venv/bin/python ] && .venv/bin/python -c "import crosshair, z3, cminx, antlr4" >/dev/null 2>&1; then exit 0; fi
+  if [ -x .venv/bin/python ] && .venv/bin/python -c "import crosshair, z3, cminx, antlr4, cvc5" >/dev/null 2>&1; then exit 0; fi
   rm -rf .venv
   /venv/bin/python -m venv .venv || exit 2
   echo "import site; site.addsitedir('/venv/lib/python3.12/site-packages')" > .venv/lib/python3.12/site-packages/_base.pth
-  PIP_NO_INDEX=1 .venv/bin/pip install -q --no-index --find-links /opt/veriftools/wheels crosshair-tool z3-solver || exit 2
-  .venv/bin/python -c "import crosshair, z3, cminx, antlr4" || exit 2
+  PIP_NO_INDEX=1 .venv/bin/pip install -q --no-index --find-links /opt/veriftools/wheels crosshair-tool z3-solver cvc5 || exit 2
+  .venv/bin/python -c "import crosshair, z3, cminx, antlr4, cvc5" || exit 2
 ) 9>.setup.lock
